@@ -159,13 +159,13 @@ def rule_lines_opaque(run, prog):
 ASSUME = None   # set per evaluation: the kind of the last statement
 
 
-def _test_value(test, last: str) -> Optional[bool]:
+def _test_value(test, last: str, assume_global: bool = True) -> Optional[bool]:
     """Truth of a test under the assumption: context.history[-1] == last, the current scope is the GlobalScope."""
     if isinstance(test, ast.UnaryOp) and isinstance(test.op, ast.Not):
-        v = _test_value(test.operand, last)
+        v = _test_value(test.operand, last, assume_global)
         return None if v is None else not v
     if isinstance(test, ast.BoolOp):
-        vals = [_test_value(v, last) for v in test.values]
+        vals = [_test_value(v, last, assume_global) for v in test.values]
         if isinstance(test.op, ast.And):
             if any(v is False for v in vals):
                 return False
@@ -187,6 +187,8 @@ def _test_value(test, last: str) -> Optional[bool]:
                     return last in vals
                 if isinstance(op, ast.NotIn):
                     return last not in vals
+        if not assume_global:
+            return None
         if L in ("context.scope.name", "self.scope.name") and isinstance(R, ast.Constant):
             if isinstance(op, ast.Eq):
                 return R.value == "GlobalScope"
@@ -200,8 +202,8 @@ def _test_value(test, last: str) -> Optional[bool]:
                 return True
             if isinstance(op, (ast.IsNot, ast.NotEq)):
                 return False
-    if isinstance(test, ast.Call) and text(test.func) == "isinstance" and len(test.args) == 2 and text(test.args[0]) == "context.scope" \
-            and text(test.args[1]) == "GlobalScope":
+    if assume_global and isinstance(test, ast.Call) and text(test.func) == "isinstance" and len(test.args) == 2 \
+            and text(test.args[0]) == "context.scope" and text(test.args[1]) == "GlobalScope":
         return True
     return None
 
@@ -276,8 +278,9 @@ def rule_transparent(run, prog):
 
 def _strip_len_guard(test):
     """`len(self.history) > 0 and (...)` -> `(...)`: the length guard holds whenever a statement has been recognised."""
-    if isinstance(test, ast.BoolOp) and isinstance(test.op, ast.And) and len(test.values) == 2 and "len(" in text(test.values[0]) \
-            and "history" in text(test.values[0]):
+    if isinstance(test, ast.BoolOp) and isinstance(test.op, ast.And) and len(test.values) == 2 \
+            and text(test.values[0]).replace("self.", "context.") in ("len(context.history) > 0", "len(context.history) >= 1",
+                                                                       "len(context.history) != 0", "context.history"):
         return test.values[1]
     return test
 
